@@ -482,9 +482,12 @@ HARNESSES = [
     R.H("whole_validator",
         ["hed.validator.hed_validator.HedValidator.validate", "hed.validator.hed_validator.HedValidator.run_basic_checks",
          "hed.validator.hed_validator.HedValidator.run_full_string_checks", "hed.models.hed_string.HedString.validate"],
-        quick=R.tier(cells=R.int_cells("VP_K", 0, 2), timeout=500, path_timeout=60,
-                     bound="three fixed annotations on the mini schema with ONE free printable-ASCII character: a "
-                           "name-class value, a numeric value before a unit, a second top-level tag"),
+        quick=R.tier(cells=[{"VP_K": 0}, {"VP_K": 2}], timeout=600, path_timeout=60,
+                     bound="two fixed annotations on the mini schema with ONE free printable-ASCII character: a "
+                           "name-class value, a second top-level tag"),
+        thorough=R.tier(cells=R.int_cells("VP_K", 0, 2), timeout=2400, path_timeout=120,
+                        bound="three fixed annotations: also a numeric value before a unit (about 20 s of solver time "
+                              "per path)"),
         what="the full two-stage validator reports no error exactly when the free character makes the annotation "
              "rule-conforming (name character / digit / one of the usable one-letter tags, not a repeat)",
         oracle="inline per-shape predicate from the HED rules and the mini tag tree",
